@@ -143,15 +143,22 @@ def newParts (name base : List Char) (ext : Option (List Char)) : Gen :=
     nameFits := b.fits && e.fits, lossyConv := b.lossy || e.lossy, exactMatch := false,
     basenameLen := b.out.length, shortName := padTo 8 b.out ++ padTo 3 e.out }
 
-/-- `ShortNameGenerator::new`; `.error .panic` = one of the three string slices panics -/
+/-- `name.chars().next().map_or(0, char::len_utf8)` -/
+def firstCharLen : List Char → Nat
+  | [] => 0
+  | c :: _ => c.utf8Size
+
+/-- `ShortNameGenerator::new` (after the repair of F5: the search for the extension dot skips the whole first
+    character instead of one byte). The three byte-index slices are still modelled with their panic condition
+    (`.error .panic`); `newL_total` proves that none of them can fire any more. -/
 def newL (name : List Char) : Except Err Gen :=
-  match sliceFrom name 1 with
+  match sliceFrom name (firstCharLen name) with
   | none => .error .panic
   | some rest =>
     match rfindDot rest with
     | none => .ok (newParts name name none)
     | some i =>
-      match sliceTo name (i + 1), sliceFrom name (i + 1 + 1) with
+      match sliceTo name (i + firstCharLen name), sliceFrom name (i + firstCharLen name + 1) with
       | some base, some ext => .ok (newParts name base (some ext))
       | _, _ => .error .panic
 
